@@ -37,7 +37,8 @@ PARSER = [("tucan.parser.parser", n) for n in ("_to_int", "TucanListenerImpl._va
 V3000 = [("tucan.io.molfile_v3000_reader", n) for n in ("_concat_lines_with_dash", "_tokenize_lines", "_validate_counts_line", "_parse_atom_attributes",
                                                         "_parse_atom_block", "_parse_bond_attributes", "_parse_bond_line_with_star_atom", "_parse_bond_block",
                                                         "_validate_atom_index", "_validate_bond_indices", "graph_attributes_from_molfile_v3000")] + \
-        [("tucan.element_attributes", "detect_hydrogen_isotopes"), ("tucan.io.molfile_reader", "graph_from_molfile_text"), F["graph_from_molecule"], F["_add_invariant_code"]]
+        [("tucan.element_attributes", "detect_hydrogen_isotopes"), ("tucan.io.molfile_reader", "graph_from_molfile_text"), ("tucan.io.molfile_reader", "_validate_atom_attributes"),
+         ("tucan.io.molfile_reader", "_validate_bonds"), F["graph_from_molecule"], F["_add_invariant_code"]]
 V2000 = [("tucan.io.molfile_v2000_reader", n) for n in ("_to_int", "_to_float", "_validate_atom_index", "_parse_atom_line", "_parse_atom_block", "_parse_bond_line",
                                                         "_parse_bond_block", "_parse_atom_value_assignments", "_merge_tuples_into_additional_attributes",
                                                         "_clear_atom_attribute", "_merge_atom_attributes_and_additional_attributes", "_parse_attribute_block",
@@ -54,26 +55,31 @@ LEAN = {
     "relabel": "Contracts.Relabel",
     "graphlemmas": "Spec.GraphLemmas",
     "parser": "Contracts.Parser",
+    "canonicalize": "Contracts.Canonicalize",
+    "finallabels": "Contracts.FinalLabels",
+    "layout": "Contracts.Layout",
+    "writer": "Contracts.Writer",
+    "reader": "Contracts.Reader",
     "v3000": "Contracts.V3000",
     "v2000": "Contracts.V2000",
 }
 
 PROPS = {
-    "C01": dict(probes=["v3"], functions=CANON + SERIAL, lean=[], diff=["pipeline"], bounded=[("pipeline", "c01")],
+    "C01": dict(probes=["v3"], functions=CANON + SERIAL, lean=["canonicalize", "finallabels", "layout", "serialize"], diff=["pipeline"], bounded=[("pipeline", "c01")],
                 canary="C01"),
-    "C02": dict(probes=["v3"], functions=CANON + SERIAL + PARSER, lean=[], diff=["pipeline", "parser"], bounded=[("c02", None)]),
-    "C03": dict(probes=["v3"], functions=CANON + SERIAL + PARSER, lean=[], diff=["pipeline", "parser"], bounded=[("pipeline", "c03")]),
-    "C04": dict(probes=["v3"], functions=CANON, lean=[], diff=["pipeline"], bounded=[("pipeline", "c04")]),
-    "C05": dict(functions=SERIAL, lean=["serialize"], diff=["pipeline"], bounded=[("c05", None)]),
+    "C02": dict(probes=["v3"], functions=CANON + SERIAL + PARSER, lean=["layout", "parser", "canonicalize"], diff=["pipeline", "parser"], bounded=[("c02", None)]),
+    "C03": dict(probes=["v3"], functions=CANON + SERIAL + PARSER, lean=["layout", "parser", "canonicalize", "finallabels"], diff=["pipeline", "parser"], bounded=[("pipeline", "c03")]),
+    "C04": dict(probes=["v3"], functions=CANON, lean=["canonicalize"], diff=["pipeline"], bounded=[("pipeline", "c04")]),
+    "C05": dict(functions=SERIAL, lean=["layout", "serialize"], diff=["pipeline"], bounded=[("c05", None)]),
     "C06": dict(functions=CANON + SERIAL + V3000 + V2000, lean=["v3000", "v2000"], diff=["pipeline", "io"], bounded=[("c06", None)]),
     "C07": dict(functions=V3000, lean=["v30line", "v3000"], diff=["io"], bounded=[("c07", None)]),
     "C08": dict(functions=V2000 + V3000, lean=["v2000"], diff=["io"], bounded=[("c08", None)]),
     "C09": dict(probes=["v5"], functions=WRITER + V3000, lean=["v30line"], diff=["io"], bounded=[("c09", None)]),
     "C10": dict(functions=PARSER, lean=["parser"], diff=["parser"], bounded=[("c10", None)]),
-    "C11": dict(probes=["v3"], functions=PARSER + CANON + SERIAL, lean=[], diff=["parser", "pipeline"], bounded=[("c11", None)]),
-    "C12": dict(functions=CANON + SERIAL, lean=["relabel", "partition"], diff=["pipeline"], bounded=[("pipeline", "c12")]),
-    "C13": dict(probes=[], functions=CANON, lean=["partition"], diff=["pipeline"], bounded=[("pipeline", "c13")]),
+    "C11": dict(probes=["v3"], functions=PARSER + CANON + SERIAL, lean=["parser", "canonicalize", "layout", "finallabels"], diff=["parser", "pipeline"], bounded=[("c11", None)]),
+    "C12": dict(functions=CANON + SERIAL, lean=["canonicalize", "relabel", "finallabels"], diff=["pipeline"], bounded=[("pipeline", "c12")]),
+    "C13": dict(probes=[], functions=CANON, lean=["canonicalize", "partition"], diff=["pipeline"], bounded=[("pipeline", "c13")]),
     "C14": dict(functions=CANON + SERIAL + PARSER + V3000 + V2000 + WRITER, lean=[], diff=[], bounded=[("c14", None)]),
-    "C15": dict(functions=CANON + SERIAL + PARSER, lean=[], diff=["pipeline"], bounded=[("c15", None)]),
+    "C15": dict(functions=CANON + SERIAL + PARSER, lean=["canonicalize", "finallabels", "partition", "parser"], diff=["pipeline"], bounded=[("c15", None)]),
     "C16": dict(probes=["v6"], functions=[F["permute_molecule"], F["_permute_molecule"], F["_sort_molecule_by_label"]], lean=["relabel"], diff=["pipeline"], bounded=[("c16", None)]),
 }
